@@ -196,6 +196,8 @@ def impl_report(case, style="str", audit=False):
     stops = est[eca.END_DATE].tolist()
     rates = est[eca.M_RATE].tolist()
     vols = est[eca.EST_VOL_EMIT].tolist()
+    prevs = col(eca.PREV_CONDITION)   # the two condition columns as the code computed them
+    nexts = col(eca.NEXT_CONDITION)
     out = {}
     for i in range(len(est)):
         key = (_site_back(sites[i], style),
@@ -207,6 +209,8 @@ def impl_report(case, style="str", audit=False):
         w = {"start": ts2day(starts[i]), "stop": ts2day(stops[i]), "rate_num": int(rn), "vol": float(vols[i])}
         if dates is not None:
             w["date"] = ts2day(dates[i])
+        if prevs is not None and nexts is not None:
+            w["prev"], w["next"] = bool(prevs[i]), bool(nexts[i])
         out.setdefault(key, []).append(w)
     return out
 
@@ -303,6 +307,51 @@ def helper_offsets_many(fs, g0=0, g1=2000):
     eT, eF = e[:, 0:2 * n:2], e[:, 2 * n::2]
     sT, sF = s[:, 1:2 * n:2], s[:, 2 * n + 1::2]
     return gaps, eT, eF, sT, sF
+
+
+def pair_conditions(pairs):
+    """the REAL calculate_next_condition / calculate_prev_condition on two-row groups (earlier rate,
+    later rate): -> list of (next condition of the earlier row, previous condition of the later row)"""
+    n = len(pairs)
+    rates = np.empty(2 * n, dtype=np.float64)
+    rates[0::2] = [p[0] for p in pairs]
+    rates[1::2] = [p[1] for p in pairs]
+    df = pd.DataFrame({eca.SITE_ID: np.repeat(np.arange(n), 2), eca.M_RATE: rates})
+    g = df.groupby(eca.SITE_ID)
+    df = poh.calculate_prev_condition(df, g)
+    df = poh.calculate_next_condition(df, g)
+    nx = df[eca.NEXT_CONDITION].to_numpy()
+    pv = df[eca.PREV_CONDITION].to_numpy()
+    edge = [(bool(pv[2 * i]), bool(nx[2 * i + 1])) for i in range(n)]   # first row's prev, last row's next
+    return [(bool(nx[2 * i]), bool(pv[2 * i + 1])) for i in range(n)], edge
+
+
+def helper_offsets_pairs(fs, conds, g0=0, g1=2000):
+    """calculate_end_date on the earlier row and calculate_start_date on the later row of an interval,
+    for every factor, every gap g0..g1 and every pair of conditions in `conds` (list of (next condition
+    of the earlier row, previous condition of the later row) AS THE REAL CONDITION FUNCTIONS gave them for
+    a pair of rates).  -> gaps, end offsets, start offsets, each of shape (len(fs), len(conds), gaps)"""
+    gaps = np.arange(g0, g1 + 1)
+    n = len(gaps)
+    m, c = len(fs), len(conds)
+    base = np.datetime64(EPOCH, "ns")
+    d1 = np.empty(2 * n, dtype="datetime64[ns]")
+    d1[0::2] = base
+    d1[1::2] = base + gaps.astype("timedelta64[D]").astype("timedelta64[ns]")
+    dates = np.tile(d1, m * c)
+    nxt = np.tile(np.concatenate([np.repeat(bool(a), 2 * n) for a, _ in conds]), m)
+    prv = np.tile(np.concatenate([np.repeat(bool(b), 2 * n) for _, b in conds]), m)
+    factor = np.repeat(np.asarray(fs, dtype=np.float64), 2 * n * c)
+    ends = poh.calculate_end_date(pd.DataFrame({eca.NEXT_CONDITION: nxt, eca.SURVEY_COMPLETION_DATE: dates}), factor).to_numpy()
+    starts = poh.calculate_start_date(pd.DataFrame({eca.PREV_CONDITION: prv, eca.SURVEY_COMPLETION_DATE: dates}), factor).to_numpy()
+    day = np.timedelta64(1, "D")
+    e = ((ends - dates) // day).astype(np.int64)
+    s = ((dates - starts) // day).astype(np.int64)
+    if not (((ends - dates) == e * day).all() and ((dates - starts) == s * day).all()):
+        raise RuntimeError("window offset is not a whole number of days")
+    e = e.reshape(m, c, 2 * n)[:, :, 0::2]   # earlier rows
+    s = s.reshape(m, c, 2 * n)[:, :, 1::2]   # later rows
+    return gaps, e, s
 
 
 # ----------------------------------------------------------------------------------------------
